@@ -24,6 +24,11 @@ pub fn gen(rng: &mut Rng, tier: Tier, out: &mut Vec<String>) {
         if tag == "off-grid-negative" {
             continue;
         }
+        // the very tall triangles of C04 (thousands of rows) would put tens of thousands of fragments through the
+        // exact plane oracle: C05 keeps triangles up to 400 rows
+        if p.iter().map(|q| q.1).fold(0.0f32, f32::max) > 400.0 {
+            continue;
+        }
         let kind = kinds[i % kinds.len()];
         let k = kind_words(kind);
         // reciprocal depths: w in [1, 10] (ratio up to 10:1), sometimes all equal
